@@ -237,6 +237,25 @@ def gen_send(rng, idx):
         if s.held: s.add(op="unhold"); s.held = False
         base = s.next_id; s.next_id += 8
         s.steps += quota_probe(base, rm if rm is not None else 2)
+    if rm is not None and r.random() < 0.10:
+        # a QoS 2 exchange loses the connection in its PUBLISH or PUBREL phase (the write fails / succeeds and the
+        # acknowledgement is lost), completes on the next connection, and then the quota is probed: every unit must have
+        # been taken and returned exactly once
+        s.quiesce(ms=60000)
+        if s.held: s.add(op="unhold"); s.held = False
+        s.add(op="set", auto_write=0)
+        s.pub(2)
+        ph = r.random()
+        if ph < 0.6:
+            s.add(op="wend", ec="ok")                                  # PUBLISH out, PUBREC back, the PUBREL write is pending
+            s.add(op="wend", ec=r.choice(["reset", "broken_pipe", "ok"]), **({"drop": 1} if r.random() < 0.2 else {}))
+            if s.steps[-1]["ec"] == "ok" and "drop" not in s.steps[-1]: s.add(op="fault", ec="reset")
+        else:
+            s.add(op="wdeliver", nb=r.choice([1, 5, 9])); s.add(op="wend", ec="reset")
+        s.add(op="set", auto_write=1)
+        s.quiesce(ms=60000)
+        base = s.next_id; s.next_id += 8
+        s.steps += quota_probe(base, rm, tag="p")
     if r.random() < 0.07:
         # a lost acknowledgement whose recovery (the 20 s watchdog's own DISCONNECT) is overtaken by a connection loss; a
         # second acknowledgement lost later must still be recovered: the watchdog has to survive its first use
